@@ -21,7 +21,7 @@ ENTRIES = {
         "text": "spec/Executor.tla models lumina_utils::executor::spawn / spawn_cancellable / JoinHandle::join and the "
                 "TokenTriggerDropGuard: polls of a task (a cancellable one checks its CancellationToken first), one "
                 "logged step per poll, end of the body by return or panic, guard drop triggering the token, join "
-                "resolving. TLC checks for 2 tasks (thorough 3) and all plans that join() returns only after the "
+                "resolving. TLC checks for 2 tasks and all plans with up to 1 (thorough 3) steps that join() returns only after the "
                 "task's future is gone, always returns after that (weak fairness), that a cancelled task stops and "
                 "logs at most one step after the cancel took effect and none after a step that saw the flag; a "
                 "guard dropped early and an unbiased select are shown to fail. For every plan TLC derives the allowed "
@@ -58,7 +58,7 @@ def _run_real(ck, hb, plans, reps, mixes, seed, tag):
 
 def run(ck):
     hb = ck.build("h-utils")
-    mc = ck.cfg_with("MC_Executor.cfg", {"NTasks": 2 if ck.quick else 3, "MaxSteps": 1 if ck.quick else 2})
+    mc = ck.cfg_with("MC_Executor.cfg", {"NTasks": 2, "MaxSteps": 1 if ck.quick else 3})
     ck.tlc_mc("MC_Executor", mc, required_actions=["Cancel", "PollStart", "Step", "End", "DropGuard", "JoinReturn"])
     for dev, inv in [("guard_first", "JoinOnlyAfterEnd"), ("no_bias", "OneStepAfterCancel")]:
         cfg = ck.cfg_with("MC_Executor.cfg", {"NTasks": 1, "Deviation": f'"{dev}"'}, name=f"MC_Executor_{dev}.cfg")
